@@ -109,7 +109,8 @@ def _nodes(v):
     nodes.append({"hostname": "client_1", "type": "computer", "ip_address": IPS["client_1"], "subnet_mask": "255.255.255.0",
                   "default_gateway": gw_cli, "dns_server": IPS["backup_server"], **dur,
                   "applications": [
-                      {"type": "data-manipulation-bot", "options": {"port_scan_p_of_success": 0.8, "data_manipulation_p_of_success": 0.8,
+                      {"type": "data-manipulation-bot", "options": {"port_scan_p_of_success": 1.0 if v.get("det") else 0.8,
+                                                                    "data_manipulation_p_of_success": 1.0 if v.get("det") else 0.8,
                                                                     "payload": "DELETE", "server_ip": IPS["database_server"]}},
                       {"type": "web-browser", "options": {"target_url": "http://arcd.com/users/"}},
                       {"type": "database-client", "options": {"db_server_ip": IPS["database_server"]}}],
@@ -321,7 +322,7 @@ def _red(v):
     return {
         "ref": "red_1", "team": "RED", "type": "red-database-corrupting-agent",
         "agent_settings": {"possible_start_nodes": ["client_1"], "target_application": "data-manipulation-bot",
-                           "start_step": v.get("red_start", 2), "frequency": 2, "variance": 1},
+                           "start_step": v.get("red_start", 2), "frequency": 2, "variance": 0 if v.get("det") else 1},
     }
 
 
